@@ -25,8 +25,8 @@ PROPS = {
     },
     "C08": {
         "modules": ["Cose.Props.C08"],
-        "families": ["cbor", "map", "msg:wrongtype"],
-        "spec_ops": ["cbor.enc", "wire.wrongtype", "cbor.encdup"],
+        "families": ["cbor", "map", "msg:wrongtype", "msg:gomap"],
+        "spec_ops": ["cbor.enc", "wire.wrongtype", "wire.badbucket", "cbor.encdup"],
         "n_quick": 8000, "n_thorough": 800000,
         "rule": "cbor.enc: random Go values (all integer kinds, nil/empty slices, nested CoseMaps of 0..320 int/text labels) encoded by the "
                 "library vs the Lean deterministic encoder; cbor.dec / map.unmarshal: random CBOR trees written by an independent "
@@ -40,7 +40,7 @@ PROPS = {
     "C11": {
         "modules": ["Cose.Props.C11"],
         "families": ["prim:mac"],
-        "spec_ops": ["prim.mac", "prim.macverify"],
+        "spec_ops": ["prim.mac", "prim.macverify", "prim.mac2"],
         "n_quick": 3000, "n_thorough": 200000,
         "rule": "8 MAC algorithms x random keys (1/12 of wrong size 0..80) x message lengths covering every residue mod 16/64/128, 0, "
                 "and 65279..70000; each tag then verified as is / truncated / extended / bit-flipped / for other data / under another key; "
@@ -52,7 +52,7 @@ PROPS = {
     "C12": {
         "modules": ["Cose.Props.C12"],
         "families": ["prim:aead"],
-        "spec_ops": ["prim.aead.enc", "prim.aead.dec"],
+        "spec_ops": ["prim.aead.enc", "prim.aead.dec", "prim.aead2"],
         "n_quick": 2500, "n_thorough": 120000,
         "rule": "12 AEAD algorithms x random keys (wrong sizes 1/15) x nonces (wrong lengths 1/12) x plaintext and additional-data lengths "
                 "0..70 / block boundaries / 65279,65280,65281,65535,65536,65537,70000; each ciphertext then decrypted as is or with a "
@@ -81,7 +81,7 @@ PROPS = {
         "assumptions": ["signature correctness (SigCorrect) for ECDSA / Ed25519: assumed in the theorem, cross-checked by the Lean EC reference in the run"],
     },
     "C02": {
-        "modules": ["Cose.Props.C02"], "families": ["msg:C02"], "spec_ops": [],
+        "modules": ["Cose.Props.C02", "Cose.Props.History"], "families": ["msg:C02"], "spec_ops": [],
         "n_quick": 400, "n_thorough": 50000,
         "rule": "valid Sign1/Sign/Mac0/Mac messages, then per message 4 alterations: bit flip at a random position, truncation, trailing byte, byte replacement, other external data, "
                 "other key, splice of one top-level member from an independently produced message, change of kind (tag/prefix swap); model (with Lean HMAC/CBC-MAC/ECDSA/Ed25519) predicts accept/reject exactly",
@@ -89,7 +89,7 @@ PROPS = {
         "assumptions": ["existential unforgeability of the primitives is assumed; the theorems reduce acceptance of a changed authenticated item to a forgery"],
     },
     "C03": {
-        "modules": ["Cose.Props.C03"], "families": ["msg:C03", "prim:aead"], "spec_ops": [],
+        "modules": ["Cose.Props.C03", "Cose.Props.History"], "families": ["msg:C03", "prim:aead"], "spec_ops": [],
         "n_quick": 400, "n_thorough": 50000,
         "rule": "valid Encrypt0/Encrypt messages over 12 AEADs, then alterations as for C02 (ciphertext, IV, protected bytes, prefix, shape, key, external data); after a failed Decrypt the harness "
                 "inspects the message object's Payload (PAYLOAD-LEAKED is reported if it is not the zero value)",
@@ -97,7 +97,7 @@ PROPS = {
         "assumptions": ["AEAD security assumed; uniqueness theorems (C12) reduce an accepted change to a tag forgery"],
     },
     "C04": {
-        "modules": ["Cose.Props.C04"], "families": ["msg:C04", "kdf"], "spec_ops": ["msg.consume", "msg.produce", "kdf.enc"],
+        "modules": ["Cose.Props.C04", "Cose.Props.History"], "families": ["msg:C04", "kdf"], "spec_ops": ["msg.consume", "msg.produce", "kdf.enc"],
         "n_quick": 400, "n_thorough": 40000,
         "rule": "messages written by an independent mini-encoder with non-canonical protected buckets (non-shortest integers, reversed key order, explicit h'a0'), non-shortest heads, optional tags, "
                 "authenticated by the library's primitive over the RFC 9052 structure computed independently; recording Signer/Verifier/MACer/Encryptor wrappers expose the bytes handed to the primitive (tobe= / aad=), "
@@ -182,7 +182,7 @@ PROPS = {
     },
     "C07": {
         "modules": ["Cose.Props.C07"],
-        "families": ["dec", "kdf", "claims", "msg:C02", "msg:C03", "msg:C04", "map", "cbor", "key", "impl", "sig", "ecdh", "prim:mac", "prim:aead", "prim:kdf", "cwt"],
+        "families": ["dec", "kdf", "claims", "msg:C02", "msg:C03", "msg:C04", "msg:C06", "map", "cbor", "key", "impl", "sig", "ecdh", "prim:mac", "prim:aead", "prim:kdf", "cwt"],
         "spec_ops": [],
         "n_quick": 250, "n_thorough": 30000,
         "extras": [{"name": "nolink", "pkg": "./nolink", "args": [], "n_quick": 1, "n_thorough": 1}],
